@@ -1,7 +1,7 @@
 \* spec -> impl, random long histories (tlc -simulate): length 30, dimensions 1..8,
 \* windows 1..10, six fading factors, five significance levels, NIS in steps of 1/2.
-SPECIFICATION Spec
-CONSTANTS Kinds = {"standard", "sliding", "fading"} Windows = {1, 2, 3, 4, 5, 6, 7, 8, 9, 10} NAlpha = 5
+SPECIFICATION SimSpec
+CONSTANTS Kinds = {"standard", "sliding", "fading"} Windows = {1, 2, 3, 4, 5, 6, 7, 8, 9, 10} NAlpha = 5 Bank = TRUE
           NisVals = {0, 1, 2, 3, 4, 5, 6, 8, 10, 12, 15, 18, 22, 27, 33, 40, 50, 64, 80}
           NisDen = 2 Dims = {1, 2, 3, 4, 5, 6, 7, 8}
           MaxLen = 30 FadeLen = 30 Trim = FALSE KeepHist = TRUE
@@ -12,5 +12,5 @@ INVARIANT WindowIsLastW
 INVARIANT MemoryUntouched
 INVARIANT DocStandard
 INVARIANT DocSliding
-INVARIANT MonotoneInLatestAdj
+INVARIANT MonotoneInLatestSampled
 INVARIANT Emit
